@@ -59,7 +59,7 @@ def sites(path, lines_range):
 
 
 def suite_ok(wt):
-    j = "/tmp/vf_mut_junit.xml"
+    j = wt + "_junit.xml"
     subprocess.run(["/venv/bin/python", "-m", "pytest", "-q", "-x", "-p", "no:cacheprovider", "--timeout=900", "--junitxml=" + j,
                     "--deselect", "test/test_polyglot.py::TestPolyglotModule::test_numpy_non_pickle", "--deselect", "test/test_polyglot.py::TestPolyglotModule::test_numpy_pickle",
                     "--deselect", "test/test_polyglot.py::TestPolyglotModule::test_recursive_tar", "--deselect", "test/test_polyglot.py::TestPolyglotModule::test_recursive_zip"],
@@ -83,7 +83,7 @@ def main():
     ap.add_argument("--only-lines", default="")
     ap.add_argument("--checks", default="")
     a = ap.parse_args()
-    wt = "/tmp/wt_mut"
+    wt = os.environ.get("MUT_WT", "/tmp/wt_mut")
     if not os.path.isdir(wt):
         subprocess.run(["git", "-C", "/repo", "worktree", "add", "-q", wt, "HEAD"], check=True)
     subprocess.run(["git", "-C", wt, "checkout", "-q", "--detach", subprocess.run(["git", "-C", "/repo", "rev-parse", "HEAD"], capture_output=True, text=True).stdout.strip()])
